@@ -62,4 +62,37 @@ theorem rulelist_refresh_calls_src :
 /-- The cache file is read whole, whatever the size limit for downloads is. -/
 theorem from_file_copy_src : from_file_copy = "b, file" := by decide
 
+/-! ### The decoded index (third deepening): `validate`, `NewID`, `compare`, file names -/
+
+/-- `validate`: nil, empty URL, `NewID`, and (third fix) the reserved keys — `Agd.Refresh.classify`. -/
+theorem validate_conds_src :
+    validate_conds = "f == nil | f.DownloadURL == \"\" | err != nil | isReservedKey(f.Key)" := by decide
+def reservedCases : String :=
+  "\".\",\"..\",indexFileNameBlockedServices,indexFileNameRuleLists,string(filter.IDAdultBlocking),string(filter.IDGeneralSafeSearch),string(filter.IDNewRegDomains),string(filter.IDSafeBrowsing),string(filter.IDYoutubeSafeSearch) | default"
+/-- The reserved keys are `Agd.Refresh.reservedNames`, by the values of the constants below. -/
+theorem reserved_cases_src : reserved_cases = reservedCases := by rfl
+theorem index_file_name_src : index_file_name = "\"filters.json\"" := by decide
+theorem services_file_name_src : services_file_name = "\"services.json\"" := by decide
+theorem id_adult_src : id_adult = "\"adult_blocking\"" := by decide
+theorem id_safe_browsing_src : id_safe_browsing = "\"safe_browsing\"" := by decide
+theorem id_new_reg_src : id_new_reg = "\"newly_registered_domains\"" := by decide
+theorem id_ss_general_src : id_ss_general = "\"general_safe_search\"" := by decide
+theorem id_ss_youtube_src : id_ss_youtube = "\"youtube_safe_search\"" := by decide
+/-- `compare`: nil entries after all others, otherwise `cmp.Compare` of the key strings —
+`Agd.Refresh.rawLe`; `loadIndex` sorts stably with it — `Agd.Refresh.sortRaw`. -/
+theorem compare_conds_src : compare_conds = "f == nil | other == nil | other == nil" := by decide
+theorem compare_returns_src : compare_returns = "0 | 1 | -1 | cmp.Compare(f.Key, other.Key)" := by decide
+theorem load_index_sort_src : load_index_sort = "resp.Filters, (*indexRespFilter).compare" := by decide
+/-- The cache file of a rule list (and of a safe-search filter) is the cache directory joined with
+its ID — `Agd.Refresh.ruleListFile`. -/
+theorem rule_list_cache_path_src : rule_list_cache_path = "s.cacheDir, fltIDStr" := by decide
+theorem safe_search_cache_path_src : safe_search_cache_path = "cacheDir, fltIDStr" := by decide
+/-- `NewID`: 1 to 128 bytes, every rune printable non-blank ASCII and no slash — `Agd.Refresh.idValid`. -/
+theorem new_id_conds_src : new_id_conds = "err != nil | i != -1" := by decide
+theorem new_id_len_args_src : new_id_len_args = "len(s), MaxIDLen, MinIDLen, unitByte" := by decide
+theorem id_len_cases_src : id_len_cases = "n > max | n < min | default" := by decide
+theorem max_id_len_src : max_id_len = "128" := by decide
+theorem min_id_len_src : min_id_len = "1" := by decide
+theorem id_rune_cond_src : id_rune_cond = "r < '!' || r > '~' || (slashes && r == '/')" := by decide
+
 end Agd.Tie.C13
